@@ -327,7 +327,7 @@ def _cases(tier, seed):
             if r < 0.25:
                 spec["fixfirst"] = True
             elif r < 0.4:
-                spec["break"] = rng.choice(["truncate", "delete", "paren"])
+                spec["break"] = rng.choice(["swap", "delete", "paren"])  # truncated files can hang the parser (C19)
                 spec["k"] = rng.randrange(3)
             files.append(spec)
         cases.append({"files": files, "sev": rng.choice(["plain", "mixed", "user", "user", "warn_all", "user_only_error"]), "ap": rng.random() < 0.5, "jobs": rng.choice([1, 1, 2, 4])})
